@@ -571,8 +571,27 @@ pub fn run(args: &Args) -> ! {
         levels.push(same);
         levels.push(mixed);
         levels.push(rest);
+    } else {
+        // quick tier: two knobs of ONE code (disable×severity, disable×enables, enables×severity) are the
+        // precedence cases of the statement; they are run against the snippets that trigger that code only.
+        let mut same = Vec::new();
+        for i in 0..singles.len() {
+            for j in i + 1..singles.len() {
+                let (a, b) = (&singles[i], &singles[j]);
+                if let (Knob::Severity(..), Knob::Severity(..)) = (a, b) {
+                    continue;
+                }
+                if let (Some(x), Some(y)) = (a.code(), b.code()) {
+                    if x == y {
+                        same.push(vec![a.clone(), b.clone()]);
+                    }
+                }
+            }
+        }
+        levels.push(same);
     }
-    let level_names = ["deviation 0", "deviation 1", "deviation 2: two knobs of one code", "deviation 2: code knob × non-code knob", "deviation 2: knobs of two codes"];
+    let focused_level = if dev >= 2 { usize::MAX } else { 2 };
+    let level_names = ["deviation 0", "deviation 1", if dev >= 2 { "deviation 2: two knobs of one code" } else { "deviation 2: two knobs of one code × the snippets triggering that code" }, "deviation 2: code knob × non-code knob", "deviation 2: knobs of two codes"];
 
     let mut all = Stats::default();
     let mut completed: Vec<&str> = Vec::new();
@@ -591,12 +610,20 @@ pub fn run(args: &Args) -> ! {
                 let fl_code_of = |s: usize| -> String { cfg_code.clone().unwrap_or_else(|| tags[s].first().cloned().unwrap_or_else(|| "unused".to_string())) };
                 ws.set_config(reference_config(knobs));
                 let mut refs: Vec<Vec<Vec<D>>> = Vec::new();
+                let skip = |s: usize| li == focused_level && !cfg_code.as_ref().is_some_and(|c| tags[s].contains(c));
                 for (s, (_, snippet)) in BANK.iter().enumerate() {
+                    if skip(s) {
+                        refs.push(Vec::new());
+                        continue;
+                    }
                     let code = fl_code_of(s);
                     refs.push(FLS.iter().map(|(fl, _)| observe(ws, Pl::Main, &program(snippet, *fl, &code, false, true)).unwrap_or_default()).collect());
                 }
                 ws.set_config(build_config(knobs));
                 for (s, (_, snippet)) in BANK.iter().enumerate() {
+                    if skip(s) {
+                        continue;
+                    }
                     let code = fl_code_of(s);
                     for (fi, (fl, _)) in FLS.iter().enumerate() {
                         for (pl, _) in PLS.iter() {
@@ -662,7 +689,7 @@ pub fn run(args: &Args) -> ! {
         }
     }
     rep.rule = format!(
-        "program bank of {} snippets triggering {} distinct codes when every code is enabled × every configuration at deviation ≤{dev} from the default over {{diagnostics.enable=false; disable∋c, enables∋c, severity[c]=s for each of the {} codes and 4 severities; globals∋g for 6 names; globalsRegex∋r for 5 patterns}} × file-level line {{none, ---@diagnostic enable: c, ---@diagnostic disable: c}} (c = the configuration's code, else the snippet's first code) × placement {{main, meta, library root, std root}}. Decision table: enable=false ⇒ nothing; library/std/meta ⇒ nothing (meta with file-level enable: undecided); main: c∈disable without file-level enable ⇒ no c; c∈disable with file-level enable:c ⇒ exactly the c-diagnostics of the reference run; c∈enables, c∉disable, no file-level disable:c ⇒ exactly the c-diagnostics of the reference run; severity[c]=s ⇒ every c-diagnostic has severity s, and every diagnostic has a severity; a name in globals / matching globalsRegex (hand-written matcher) is never under an undefined-global diagnostic. Reference run = same text with the file-level line as a plain comment of equal length, every code enabled, same globals/regex. non-trivial = a rule applied to a code the snippet really triggers or to a silent placement.",
+        "program bank of {} snippets triggering {} distinct codes when every code is enabled × every configuration at deviation ≤{dev} from the default (quick: plus every pair of knobs of one code, against the snippets triggering that code) over {{diagnostics.enable=false; disable∋c, enables∋c, severity[c]=s for each of the {} codes and 4 severities; globals∋g for 6 names; globalsRegex∋r for 5 patterns}} × file-level line {{none, ---@diagnostic enable: c, ---@diagnostic disable: c}} (c = the configuration's code, else the snippet's first code) × placement {{main, meta, library root, std root}}. Decision table: enable=false ⇒ nothing; library/std/meta ⇒ nothing (meta with file-level enable: undecided); main: c∈disable without file-level enable ⇒ no c; c∈disable with file-level enable:c ⇒ exactly the c-diagnostics of the reference run; c∈enables, c∉disable, no file-level disable:c ⇒ exactly the c-diagnostics of the reference run; severity[c]=s ⇒ every c-diagnostic has severity s, and every diagnostic has a severity; a name in globals / matching globalsRegex (hand-written matcher) is never under an undefined-global diagnostic. Reference run = same text with the file-level line as a plain comment of equal length, every code enabled, same globals/regex. non-trivial = a rule applied to a code the snippet really triggers or to a silent placement.",
         BANK.len(),
         bank_codes.len(),
         all_code_names().len()
